@@ -143,7 +143,7 @@ def _counter_loop(pm, site, idx, L):
             v = par['init']['vars'][0]
             c = astu.strip_casts(par['c'])
             inc = par.get('inc')
-            ok = astu.num_value(v.get('init')) == 0 and c['k'] == 'Bin' and c['op'] == '<' and astu.strip_casts(c['a']).get('id') == idx['id'] \
+            ok = _nonneg_start(v) and c['k'] == 'Bin' and c['op'] == '<' and astu.strip_casts(c['a']).get('id') == idx['id'] \
                 and inc is not None and inc['k'] == 'Un' and inc['op'] == '++' and \
                 not any(r.get('id') == idx['id'] for r, how, n in statics.written_refs(par['body']))
             if not ok:
@@ -154,6 +154,23 @@ def _counter_loop(pm, site, idx, L):
             return None
         x = par
     return None
+
+
+def _nonneg_start(v):
+    """the counter starts at a value >= 0: literal >= 0, an unsigned counter, or max(x, 0)"""
+    i = astu.strip_casts(v.get('init')) if v.get('init') is not None else None
+    if i is None:
+        return False
+    val = astu.num_value(i)
+    if val is not None:
+        return val >= 0
+    ty = v.get('ty', '')
+    if 'unsigned' in ty or 'size_t' in ty or 'size_type' in ty:
+        return True
+    if i['k'] == 'Call' and i['callee']['qn'] in ('std::max', 'max') and any(astu.num_value(astu.strip_casts(a)) is not None and
+                                                                            astu.num_value(astu.strip_casts(a)) >= 0 for a in i['args']):
+        return True
+    return False
 
 
 def _position_counter_sets(fn, L, pm):
@@ -197,6 +214,7 @@ def check(rep, prog, keys):
              'subscripted container (loop counter over its size; guarded search result; size()-1 captured after an append; member of a set of '
              'positions; or a reviewed site)')
     nsites = 0
+    _PROG[0] = prog
     for key in sorted(keys):
         fn = prog.functions[key]
         sites = [n for n in astu.walk(fn['body']) if n['k'] == 'OpCall' and n.get('op') == '[]' and 'std::vector' in n['callee'].get('qn', '')
@@ -303,6 +321,12 @@ def _justify(fn, L, pm, site, cont, idx, off, possets, shrink):
                 return False, '*%s.begin() is taken without a non-empty test' % sname
             kinds.add('member')
             bound_c = possets[astu.strip_casts(d['args'][0])['obj']['id']]
+        elif d['k'] == 'Call' and d['callee'].get('project') and _PROG[0] is not None:
+            cb = _returns_last_index(_PROG[0], d)
+            if cb is None:
+                return False, 'index %s is defined by %s(), which does not return -1 or `size() - 1` of a container passed to it' % (name, d['callee']['qn'].split('::')[-1])
+            kinds.update(('last', 'sentinel'))
+            bound_c = cb
         else:
             return False, 'index %s is defined as %s' % (name, astu.src(d))
     if 'sentinel' not in kinds and len(defs) != 1:
@@ -326,6 +350,54 @@ def _justify(fn, L, pm, site, cont, idx, off, possets, shrink):
             return False, 'the container may shrink (%s at line %s) between the capture of size()-1 and the use' % (bad[0]['callee']['qn'].split('::')[-1], bad[0].get('l'))
     tag = 'J2 search result' if 'found' in kinds else ('J3 size()-1 after an append' if 'last' in kinds else 'J4 member of a position set')
     return True, '%s, sentinel excluded by a guard; %s' % (tag, rel)
+
+
+_PROG = [None]
+
+
+def _returns_last_index(prog, call):
+    """the callee returns only -1 or `P.get_particles().size() - 1` (directly or through a local so defined) where P is one of its
+    reference parameters: -> the caller's container expression (argument.get_particles()), else None"""
+    fs = [f for f in prog.fns(call['callee']['qn']) if len(f['params']) == len(call['args'])]
+    if len(fs) != 1:
+        return None
+    f = fs[0]
+    Lc = Locals(f)
+    owner = None
+    for n in astu.walk(f['body']):
+        if n['k'] != 'Return' or n.get('e') is None:
+            continue
+        e = astu.strip_casts(n['e'])
+        cands = [e]
+        if e['k'] == 'Ref' and e.get('dk') == 'local':
+            v = Lc.decl.get(e['id'])
+            if v is None or any(a['op'] != '=' for a in Lc.assigns.get(e['id'], [])):
+                return None
+            cands = ([v['init']] if 'init' in v else []) + [a['b'] for a in Lc.assigns.get(e['id'], [])]
+        for c in cands:
+            c = astu.strip_casts(c)
+            if astu.num_value(c) == -1:
+                continue
+            if c['k'] == 'Bin' and c['op'] == '-' and astu.num_value(astu.strip_casts(c['b'])) == 1:
+                a = astu.strip_casts(c['a'])
+                if a['k'] == 'MCall' and a['callee']['qn'].endswith('::size'):
+                    o = astu.strip_casts(a['obj'])
+                    if o['k'] == 'MCall' and o['callee']['qn'].endswith(('::get_particles', '::grab_particles')) and \
+                            astu.strip_casts(o['obj'])['k'] == 'Ref' and astu.strip_casts(o['obj']).get('dk') == 'param':
+                        pn = astu.strip_casts(o['obj'])['name']
+                        if owner not in (None, pn):
+                            return None
+                        owner = pn
+                        continue
+            return None
+    if owner is None:
+        return None
+    # the callee must not shrink the container
+    if any(c['callee']['qn'].split('::')[-1] in ('reset', 'clear', 'pop_back', 'erase', 'resize') for c in astu.calls(f['body']) if c['k'] == 'MCall'):
+        return None
+    idx = [i for i, p_ in enumerate(f['params']) if p_['name'] == owner]
+    arg = astu.strip_casts(call['args'][idx[0]])
+    return {'k': 'MCall', 'callee': {'qn': 'bxdecay0::event::get_particles'}, 'obj': arg, 'args': []}
 
 
 def _captured_bound(fn, L, ref):
